@@ -1,0 +1,16 @@
+//! Read-only observation hooks for the external verification harness.
+//!
+//! Compiled only with the `verif-hooks` feature.
+
+use std::sync::atomic::Ordering;
+
+use crate::Types;
+use crate::raft_log::wal::RaftLogWAL;
+
+impl<T: Types> RaftLogWAL<T> {
+    /// Returns `(sent_seq, done_seq)`: the sequence number of the last request
+    /// sent to the FlushWorker and the highest one it has completed.
+    pub(crate) fn verif_worker_seq(&self) -> (u64, u64) {
+        (self.sent_seq, self.done_seq.load(Ordering::Relaxed))
+    }
+}
